@@ -92,6 +92,7 @@ MISSED = {
     "C19-12": "multi-adapter nodes only forwarded; `app_on_two_nets` (an application on a two-adapter node) added",
     "C01-8": "character strings were only built from Python text (UTF-8); `str_reencode` (strings received in another character set "
              "and passed on) added",
+    "C03-8": "values inside an ANY were atomic or one level deep; `any_nested` (two and three levels, different context numbers) added",
     "C10-5": "no frame carried a source network; `routed_noise` (garbage claiming a remote source, then a relayed valid request) added",
 }
 
